@@ -210,7 +210,13 @@ Print Assumptions C17_ls_scale_covariant_Qinf.
    0 elsewhere, n = k + min(m, len response) + t.  If the response window of offset 0 is negative and
    fits (look_ahead <= m, which is k + look_ahead <= n; the property's "k + 18 <= n" covers every
    look-ahead 3..=12 of the wire grid), the sweep with offset 0 returns exactly a at k, 0 elsewhere and
-   residual 0 - from six arithmetic facts that hold in any ordered field for a > 0. *)
+   residual 0 - from six arithmetic facts that hold in any ordered field for a > 0.
+   SCOPE: exact arithmetic only.  Two of the facts are FALSE for IEEE binary64 - `div (mul a r) r = a` (two
+   roundings) and, with szero = -0.0 as in the float instance, `add szero (mul zero zero) = szero`
+   (-0 + 0*0 = +0) - so this theorem and the next have no binary64 instance and say nothing about the
+   floating-point routine; they are instantiated over Q below (C17_isolated_pulse_exact_Q).  For binary64 the
+   recovery (the property's "relative error below 1e-6") is MEASURED on the implementation by rel17pulse
+   (2e-16 relative; single-wire blocks at all 256 ring positions), not proved. *)
 Theorem C17_isolated_pulse_exact :
   forall (F : Type) (zero szero : F) (add sub mul div fmin : F -> F -> F) (neg nonneg : F -> bool)
          (a : F) (response : list F) (la : nat),
@@ -409,3 +415,38 @@ Qed.
 Example C17_scale_example_rejects : nn_safe 500 [0x1p+600; -0x1p+0; -0x1p+0] ex_resp 0 2 = false.
 Proof. vm_compute. reflexivity. Qed.
 
+
+(* ---- the tie of the two theorems above to the cases that are run.  For every `rel17scale` case line the model
+        runner EVALUATES the hypotheses (at every point of the production grid nn_safe, and ls_safe over the grid)
+        on the waveform, response and k of the line, and the line carries the implementation's verdict (scaled bit
+        for bit or not); "hypotheses true and not scaled exactly" is a violation.  The runner evaluates the
+        predicates in the form below, which computes the four bounds 2^(K-1021), 2^(1023-K), 2^(2K-1021),
+        2^(1023-2K) once instead of in every range test; it is the same function (by conversion). ---- *)
+From AG Require Import Signal.GreedyScaleFast.
+Theorem C17_nn_safe_fast_eq : forall (k : Z) (signal response : list float) (off la : nat),
+  nn_safe_fast k signal response off la = nn_safe k signal response off la.
+Proof. exact nn_safe_fast_eq. Qed.
+Print Assumptions C17_nn_safe_fast_eq.
+Theorem C17_ls_safe_fast_eq : forall (k : Z) (signal response : list float) (offs las : list nat),
+  ls_safe_fast k signal response offs las = ls_safe k signal response offs las.
+Proof. exact ls_safe_fast_eq. Qed.
+Print Assumptions C17_ls_safe_fast_eq.
+(* so the theorem in the form the runner uses it *)
+Theorem C17_ls_deconv_scale_f64_as_run : forall (k : Z) (signal response : list float) (offs las : list nat),
+  ls_safe_fast k signal response offs las = true ->
+  ls_deconv_f (map (fscale k) signal) response offs las =
+  res_map (map (fscale k)) (ls_deconv_f signal response offs las).
+Proof. intros k s r offs las H. apply C17_ls_deconv_scale_f64. rewrite <- C17_ls_safe_fast_eq. exact H. Qed.
+Print Assumptions C17_ls_deconv_scale_f64_as_run.
+Theorem C17_nn_greedy_scale_f64_as_run : forall (k : Z) (signal response : list float) (off la : nat),
+  nn_safe_fast k signal response off la = true ->
+  nn_greedy_f (map (fscale k) signal) response off la =
+  res_map (sc_out float (fscale k) (fscale2 k)) (nn_greedy_f signal response off la).
+Proof. intros k s r off la H. apply C17_nn_greedy_scale_f64. rewrite <- C17_nn_safe_fast_eq. exact H. Qed.
+Print Assumptions C17_nn_greedy_scale_f64_as_run.
+(* the predicate has both values: true on the example up to the bound kmax = 500 on either side, false beyond it
+   whatever the waveform *)
+Example C17_safe_false_beyond_kmax :
+  map (fun k => ls_safe_fast k ex_sig ex_resp [0; 1]%nat [2; 3]%nat) [501; 500; 400; -400; -500; -501]%Z =
+  [false; true; true; true; true; false].
+Proof. vm_compute. reflexivity. Qed.
